@@ -1,6 +1,7 @@
 import Labella.Proofs.CalendarLemmas
 import Labella.Proofs.TimeTickLemmas
 import Labella.Proofs.TickCountLemmas
+import Labella.Proofs.TimeNiceLemmas
 import Labella.Model.CalSpec
 /-! # C16 — time ticks increase, stay in the domain, sit on calendar boundaries
 # C14 (time part) — time nice() only widens, onto calendar boundaries
@@ -275,7 +276,23 @@ theorem ticks_ok (d0 d1 : Int) (m : Nat) (hm : 2 ≤ m ∧ m ≤ 50) :
     ticksOKB d0 d1 (m : Rat) (ticks d0 d1 (m : Rat)) = true := by
   exact ticksOK_all d0 d1 m hm.1
 
+/-- the heart of `nice_ok`: there is a tick grid `Q` — the ticks of the original domain are exactly the points of `Q`
+inside it, consecutive points of `Q` are between `a` and `b ≤ 2a` apart — such that the nice domain's lower end is the
+GREATEST point of `Q` not after `min d0 d1` and its upper end the LEAST point of `Q` not before `max d0 d1` -/
+theorem nice_nearest_grid_points (d0 d1 : Int) (m : Rat) (hm : 0 < m) :
+    ∃ (Q : Int → Prop) (a b : Int), Spaced Q a b ∧ b ≤ 2 * a ∧
+      (∀ x, x ∈ ticks d0 d1 m ↔ (min d0 d1 ≤ x ∧ x ≤ max d0 d1 ∧ Q x)) ∧
+      GreatestLE Q (min d0 d1) (if d1 < d0 then (nice d0 d1 m).2 else (nice d0 d1 m).1) ∧
+      LeastGE Q (max d0 d1) (if d1 < d0 then (nice d0 d1 m).1 else (nice d0 d1 m).2) := by
+  exact nice_nearest d0 d1 m hm
 
+/-- **C14 (time part) in full** for the model: for every domain and every count 2…50 the nice domain satisfies the complete predicate: ends only move outward, by less than two tick steps (largest gap of the original domain's ticks), onto boundaries at least as coarse as the tick spacing -/
+theorem nice_ok (d0 d1 : Int) (m : Nat) (hm : 2 ≤ m ∧ m ≤ 50) :
+    niceOKB d0 d1 (m : Rat) (nice d0 d1 (m : Rat)).1 (nice d0 d1 (m : Rat)).2 = true := by
+  exact niceOK_all d0 d1 (m : Rat) (by exact_mod_cast (show 0 < m by omega))
+
+-- non-vacuity (evaluated): the domain below has nine ticks 3 h apart; its ends move out by 1 s and 1 h 40 min
+example : niceOKB 1000 90000000 10 0 97200000 = true := by
+  decide +kernel
 
 end Labella.C16
-
